@@ -11,8 +11,9 @@ import (
 )
 
 type c12In struct {
-	Kind     string `json:"kind"` // "rq" | "check"
+	Kind     string `json:"kind"` // "rq" | "check" | "hist"
 	N        int    `json:"n"`
+	N0       int    `json:"n0,omitempty"` // "hist": the helper was asked about a list of this length before
 	W        int    `json:"w"`
 	P        int    `json:"p"`
 	SemiSync bool   `json:"semisync"`
@@ -45,6 +46,26 @@ func c12Monitor(m *vk.Meta, in c12In) {
 		}
 		if !(q+r > repl) {
 			m.Violation("quorum+required>replicas", in, fmt.Sprintf("quorum=%d required=%d replicas=%d", q, r, repl))
+		}
+	case "hist":
+		// one helper lives as long as the process: what it answers about a list must not depend on what it was asked before
+		sh := c12Helper(in.W, true)
+		_ = sh.GetRequiredWaitSlaveCount(make([]string, in.N0))
+		_ = sh.GetFailoverQuorum(make([]string, in.N0))
+		q := sh.GetFailoverQuorum(list)
+		r := min(in.N/2, in.W) // the acknowledgements demanded for THIS list
+		repl := max(in.N-1, 0)
+		if q < 1 {
+			m.Violation("quorum>=1", in, fmt.Sprintf("quorum=%d after a question about a list of %d", q, in.N0))
+		}
+		if !(q+r > repl) {
+			m.Violation("quorum+required>replicas", in, fmt.Sprintf("quorum=%d required=%d replicas=%d after a question about a list of %d", q, r, repl, in.N0))
+		}
+		if want := max(in.N-r, 1); sh.CheckFailoverQuorum(list, want-1) == nil && want-1 >= 0 {
+			m.Violation("check(semi-sync) accepts exactly p>=quorum", in, fmt.Sprintf("%d alive accepted, quorum %d, after a question about a list of %d", want-1, want, in.N0))
+		}
+		if r2 := sh.GetRequiredWaitSlaveCount(list); r2 != r {
+			m.Violation("required<=replicas", in, fmt.Sprintf("required=%d want %d after a question about a list of %d", r2, r, in.N0))
 		}
 	case "check":
 		sh := c12Helper(in.W, in.SemiSync)
@@ -116,6 +137,21 @@ func TestVerifC12(t *testing.T) {
 			m.Cases["c12_rq"] = append(m.Cases["c12_rq"], in)
 			m.Evaluations++
 			m.Count("random_large")
+		}
+	}
+	// history: the same helper asked about another list first
+	hn, hw := 14, 6
+	if o.Thorough() {
+		hn, hw = 40, 12
+	}
+	for n0 := 0; n0 <= hn; n0++ {
+		for n := 0; n <= hn; n++ {
+			for w := 0; w <= hw; w++ {
+				in := c12In{Kind: "hist", N0: n0, N: n, W: w}
+				c12Monitor(m, in)
+				m.Evaluations++
+				m.Count("history")
+			}
 		}
 	}
 	// sharded: one very long list literal overflows coqc's parser stack
